@@ -42,9 +42,12 @@ MSlice(i, n, k)     == [v |-> "slice_head", i |-> i, n |-> n, k |-> k]
 MGroupBy(i, cs, ad) == [v |-> "group_by", i |-> i, cs |-> cs, add |-> ad]
 MUngroup(i)         == [v |-> "ungroup", i |-> i]
 MSummarize(i, kvs)  == [v |-> "summarize", i |-> i, kv |-> kvs]
-
-RECURSIVE Flat(_)
-Flat(ss) == IF ss = <<>> THEN <<>> ELSE ss[1] \o Flat(Tail(ss))
+MAlias(i, nm, keep) == [v |-> "alias", i |-> i, name |-> nm, keep |-> keep]
+MCollect(i, keep)   == [v |-> "collect", i |-> i, keep |-> keep]
+MJoin(i, j, on, how, sfx) == [v |-> "join", i |-> i, j |-> j, on |-> on, how |-> how, suffix |-> sfx]
+MCross(i, j, sfx)   == [v |-> "cross_join", i |-> i, j |-> j, suffix |-> sfx]
+MUnion(i, j, d)     == [v |-> "union", i |-> i, j |-> j, distinct |-> d]
+OnStr(n)            == [k |-> "str", n |-> n]
 
 (* visible columns of a given type, as a sequence in output order *)
 VisOfTy(t, ty) == SelectSeq(t.vis, LAMBDA c : t.ty[c] = ty)
